@@ -175,6 +175,34 @@ def extractAlloc (blocks : List DT) (dtypeArg : Option DT) (fill : FillArg) : Ex
   let d := extractDtype (assemblerDtype blocks) dtypeArg (fillMinType fill)
   if fullRaises d fill then .error () else .ok d
 
+/-- the `casting=` argument of `extract` (numpy casting rules; `anyCast` is numpy's least restrictive rule) -/
+inductive Casting where
+  | no | equiv | safe | sameKind | anyCast
+  deriving DecidableEq, Repr
+
+/-- reference semantics: `np.can_cast(a, b, rule)` for native numeric dtypes (`no` / `equiv`: identical
+dtypes; `same_kind`: safe, or not towards a lower kind in `"buifc"`) -/
+def canCast (r : Casting) (a b : DT) : Bool :=
+  match r with
+  | .no | .equiv => a == b
+  | .safe => safeCast a b
+  | .sameKind => safeCast a b || decide (a.kind.rank ≤ b.kind.rank)
+  | .anyCast => true
+
+/-- why `extract` raised -/
+inductive XErr where
+  | overflow    -- `np.full`: Python-int fill outside an integer dtype
+  | typeError   -- `np.copyto(..., casting=casting)`: a block cannot be cast to the window's dtype
+  deriving DecidableEq, Repr
+
+/-- `extract(fill_value, dtype=dtype, casting=casting)` as far as dtypes go: `np.full`, then
+`np.copyto(xx[d_roi], block[s_roi], casting=casting)` for EVERY block of the mapping – numpy checks the
+rule before looking at the (possibly empty) slices, so a block outside the window refuses just the same -/
+def extractFull (blocks : List DT) (dtypeArg : Option DT) (fill : FillArg) (c : Casting) : Except XErr DT :=
+  match extractAlloc blocks dtypeArg fill with
+  | .error _ => .error .overflow
+  | .ok d => if blocks.all (fun a => canCast c a d) then .ok d else .error .typeError
+
 /-- the value written where no block is present -/
 inductive FillV where
   | nan | zero | given
